@@ -85,9 +85,10 @@ type verifWorld struct {
 	lockCheck bool   // C15: every access asserts the lock is write-held
 	mayFail   bool   // policy/controller results are solver-chosen (else success)
 	withLinux bool   // NRI messages carry their optional sub-messages
-	accesses  int    // number of cache/policy/control accesses seen
-	unlocked  int    // ... of them without the resmgr lock write-held (lockCheck)
-	unlockedM int    // ... of them state-changing
+	trace     []verifTraceEvent
+	accesses  int // number of cache/policy/control accesses seen
+	unlocked  int // ... of them without the resmgr lock write-held (lockCheck)
+	unlockedM int // ... of them state-changing
 }
 
 func verifNewWorld() *verifWorld {
@@ -226,6 +227,8 @@ type verifCache struct {
 	ctrOrder []string
 	pending  []string // ids of containers with pending changes
 
+	rdtControl, blockIOControl bool // last Configure*Control argument
+
 	// scripted refresh results (C11 classification harness); nil = the real
 	// cache's refresh algorithm over pods/ctrs.
 	script *verifRefreshScript
@@ -255,9 +258,9 @@ func verifHas(l []string, id string) bool {
 	return false
 }
 
-func (cch *verifCache) ConfigureRDTControl(bool)     { cch.w.access(true) }
-func (cch *verifCache) ConfigureBlockIOControl(bool) { cch.w.access(true) }
-func (cch *verifCache) Save() error                  { cch.w.access(false); return nil }
+func (cch *verifCache) ConfigureRDTControl(on bool)     { cch.w.access(true); cch.rdtControl = on }
+func (cch *verifCache) ConfigureBlockIOControl(on bool) { cch.w.access(true); cch.blockIOControl = on }
+func (cch *verifCache) Save() error                     { cch.w.access(false); return nil }
 
 func (cch *verifCache) ContainerDirectory(id string) string {
 	cch.w.access(false)
@@ -737,6 +740,11 @@ type verifPolicy struct {
 	w     *verifWorld
 	syncs []verifSyncCall
 	log   []string // "<op> <container id>"
+
+	// configuration (C13)
+	byAttr   bool          // Reconfigure decides by the configuration's own attributes
+	configs  []interface{} // every configuration passed to Reconfigure
+	inEffect interface{}   // the last one accepted
 }
 
 var errVerifPolicy = errors.New("policy failure")
@@ -751,12 +759,32 @@ func (p *verifPolicy) Start(interface{}) error {
 	return nil
 }
 
-func (p *verifPolicy) Reconfigure(interface{}) error {
+// Reconfigure: with byAttr the configuration object itself says whether the
+// policy rejects it (so re-applying a configuration accepted before is
+// accepted again), otherwise the solver chooses. A rejecting policy may
+// already have changed containers when it fails (cfg.partial). An accepted
+// configuration re-pins every live container to a cpuset that names the
+// configuration.
+func (p *verifPolicy) Reconfigure(cfg interface{}) error {
 	p.w.access(true)
+	p.configs = append(p.configs, cfg)
+	p.w.trace = append(p.w.trace, verifTraceEvent{kind: "reconfigure", cfg: cfg})
+	if c, ok := cfg.(*verifCfg); ok && p.byAttr {
+		if c.reject {
+			if c.partial {
+				p.repin(nil, "partial-"+c.name)
+			}
+			return errVerifPolicy
+		}
+		p.inEffect = cfg
+		p.repin(nil, "cfg-"+c.name)
+		return nil
+	}
 	if p.w.fails("policy.Reconfigure") {
 		return errVerifPolicy
 	}
-	p.repin(nil)
+	p.inEffect = cfg
+	p.repin(nil, "2-3")
 	return nil
 }
 
@@ -774,13 +802,13 @@ func (p *verifPolicy) Sync(add, del []cache.Container) error {
 
 // repin: like the real policies a (re)allocation may change other running
 // containers (shared pool resizing), through the cache API.
-func (p *verifPolicy) repin(except cache.Container) {
+func (p *verifPolicy) repin(except cache.Container, cpus string) {
 	for _, o := range p.w.cch.GetContainers() {
 		if o == except {
 			continue
 		}
 		if s := o.GetState(); s == cache.ContainerStateRunning || s == cache.ContainerStateCreated {
-			o.SetCpusetCpus("2-3")
+			o.SetCpusetCpus(cpus)
 		}
 	}
 }
@@ -793,7 +821,7 @@ func (p *verifPolicy) AllocateResources(c cache.Container) error {
 	}
 	c.SetCpusetCpus("0-1")
 	c.SetCPUShares(1024)
-	p.repin(c)
+	p.repin(c, "2-3")
 	return nil
 }
 
@@ -803,7 +831,7 @@ func (p *verifPolicy) ReleaseResources(c cache.Container) error {
 	if p.w.fails("policy.ReleaseResources") {
 		return errVerifPolicy
 	}
-	p.repin(c)
+	p.repin(c, "2-3")
 	return nil
 }
 
@@ -836,7 +864,8 @@ func (p *verifPolicy) GetTopologyZones() []*policy.TopologyZone {
 
 type verifControl struct {
 	control.Control
-	w *verifWorld
+	w       *verifWorld
+	lastCfg *ctlcfg.Config // last StartStopControllers argument
 }
 
 var errVerifControl = errors.New("controller failure")
@@ -854,12 +883,15 @@ func (c *verifControl) hook(what string, mutating bool) error {
 	return nil
 }
 
-func (c *verifControl) StartStopControllers(*ctlcfg.Config) error { return c.hook("StartStop", true) }
-func (c *verifControl) RunPreCreateHooks(cache.Container) error   { return c.hook("PreCreate", false) }
-func (c *verifControl) RunPreStartHooks(cache.Container) error    { return c.hook("PreStart", false) }
-func (c *verifControl) RunPostStartHooks(cache.Container) error   { return c.hook("PostStart", false) }
-func (c *verifControl) RunPostUpdateHooks(cache.Container) error  { return c.hook("PostUpdate", false) }
-func (c *verifControl) RunPostStopHooks(cache.Container) error    { return c.hook("PostStop", false) }
+func (c *verifControl) StartStopControllers(cfg *ctlcfg.Config) error {
+	c.lastCfg = cfg
+	return c.hook("StartStop", true)
+}
+func (c *verifControl) RunPreCreateHooks(cache.Container) error  { return c.hook("PreCreate", false) }
+func (c *verifControl) RunPreStartHooks(cache.Container) error   { return c.hook("PreStart", false) }
+func (c *verifControl) RunPostStartHooks(cache.Container) error  { return c.hook("PostStart", false) }
+func (c *verifControl) RunPostUpdateHooks(cache.Container) error { return c.hook("PostUpdate", false) }
+func (c *verifControl) RunPostStopHooks(cache.Container) error   { return c.hook("PostStop", false) }
 
 // ---- fake NRI stub and configuration
 
@@ -869,19 +901,32 @@ type verifStub struct {
 }
 
 func (s *verifStub) UpdateContainers(u []*api.ContainerUpdate) ([]*api.ContainerUpdate, error) {
+	s.w.trace = append(s.w.trace, verifTraceEvent{kind: "push", updates: u})
 	if s.w.fails("stub.UpdateContainers") {
 		return nil, errors.New("stub failure")
 	}
 	return nil, nil
 }
 
+// verifCfg is a configuration; its policy part is the object itself, so the
+// fake policy can see the attributes.
 type verifCfg struct {
 	cfgapi.ResmgrConfig
-	common cfgapi.CommonConfig
+	common  cfgapi.CommonConfig
+	name    string
+	reject  bool // the policy rejects this configuration
+	partial bool // ... after having changed containers already
 }
 
 func (c *verifCfg) CommonConfig() *cfgapi.CommonConfig { return &c.common }
-func (c *verifCfg) PolicyConfig() interface{}          { return nil }
+func (c *verifCfg) PolicyConfig() interface{}          { return c }
+
+// verifTraceEvent: policy reconfigurations and pushes to the runtime, in order.
+type verifTraceEvent struct {
+	kind    string // "reconfigure" or "push"
+	cfg     interface{}
+	updates []*api.ContainerUpdate
+}
 
 // verifIn reports whether container c is an element of list l.
 func verifIn(l []cache.Container, c cache.Container) bool {
